@@ -326,6 +326,9 @@ def _bitmap(degrees, scale, length=12):
 def rule_tables(ctx):
     R = "C10.TABLES"
     Q = table(ctx, "chord.QUALITIES", R)
+    if isinstance(Q, dict):
+        # the templates may be stored as lists or as arrays of the same numbers
+        Q = dict((k_, v_.data if isinstance(v_, NpArray) else v_) for k_, v_ in Q.items())
     X = table(ctx, "chord.EXTENDED_QUALITY_REDUX", R)
     SD = table(ctx, "chord.SCALE_DEGREES", R)
     PC = table(ctx, "chord.PITCH_CLASSES", R)
